@@ -35,15 +35,40 @@ func main() {
 	dcPath := fs.String("dontcare", "/verif/c01_dontcare.json", "")
 	repo := fs.String("repo", "/repo", "")
 	mode := fs.String("prop", "c01", "c01|c02: which oracle the worker evaluates")
+	nfile := fs.Int("nfile", -1, "whole-file cases (default n/6)")
 	_ = fs.Parse(os.Args[2:])
 	defer out.Flush()
 	switch os.Args[1] {
 	case "corr":
-		corr(*seed, *n, strings.Split(*kinds, ","), *repo)
+		if *nfile < 0 {
+			*nfile = *n / 6
+		}
+		corr(*seed, *n, *nfile, strings.Split(*kinds, ","), *repo)
 	case "search":
 		search(*seed, *n, *dcPath, *repo, *mode, *kinds)
 	case "worker":
 		worker(*dcPath, *mode, strings.Split(*kinds, ","))
+	case "hist":
+		// histogram of the registered box types in the harvested pool that the model does not cover
+		modelled := map[string]bool{}
+		for _, k := range strings.Split(*kinds, ",") {
+			modelled[k] = true
+		}
+		reg := registered()
+		cnt := map[string]int{}
+		for _, h := range bx.Harvest(*repo, 300000) {
+			if reg[h.Type] && !modelled[h.Type] {
+				cnt[h.Type]++
+			}
+		}
+		var ks []string
+		for k := range cnt {
+			ks = append(ks, k)
+		}
+		sort.Slice(ks, func(i, j int) bool { return cnt[ks[i]] > cnt[ks[j]] || (cnt[ks[i]] == cnt[ks[j]] && ks[i] < ks[j]) })
+		for _, k := range ks {
+			fmt.Fprintf(out, "HIST\t%s\t%d\n", k, cnt[k])
+		}
 	case "types":
 		r, s := mp4.VerifC01BoxTypes()
 		fmt.Fprintln(out, strings.Join(r, ","))
@@ -135,7 +160,42 @@ func observe(in []byte) string {
 	return fmt.Sprintf("dec=ok;used=%d;size=%d;encw=%s;encsw=%s", used, size, f(ewo, ew), f(eso, es))
 }
 
-func corr(seed uint64, n int, kinds []string, repo string) {
+// fileCases: whole files for DecodeFileSR -- hand-built ones, every testdata file (mdat payloads cut to 16 bytes when the
+// file is above 20000 bytes), random top-level sequences of pooled / generated boxes, and mutants of the top-level
+// sequence of all of them; accept filters (modelled types only) or is nil.
+func fileCases(r *hx.Rng, repo string, n int, hv []bx.Harvested, maxLen int, accept func([]byte) bool) (cases [][]byte, origin []string) {
+	add := func(b []byte, o string) {
+		if len(b) == 0 || len(b) > maxLen || (accept != nil && !accept(b)) {
+			return
+		}
+		cases = append(cases, b)
+		origin = append(origin, o)
+	}
+	for _, f := range bx.FixedFiles() {
+		add(f, "file-fixed")
+		for _, m := range bx.MutateFile(r, f, 2) {
+			add(m, "file-fixed-mut")
+		}
+	}
+	files, _ := bx.TestdataFiles(repo, maxLen, true)
+	for _, f := range files {
+		add(f, "file-testdata")
+		for _, m := range bx.MutateFile(r, f, 2) {
+			add(m, "file-testdata-mut")
+		}
+	}
+	pool := bx.FilePool(hv, 4000, accept)
+	for len(cases) < n {
+		f := bx.GenFile(r, pool)
+		add(f, "file-gen")
+		for _, m := range bx.MutateFile(r, f, 2) {
+			add(m, "file-gen-mut")
+		}
+	}
+	return
+}
+
+func corr(seed uint64, n int, nfile int, kinds []string, repo string) {
 	modelled := map[string]bool{}
 	for _, k := range kinds {
 		if k != "" {
@@ -211,12 +271,22 @@ func corr(seed uint64, n int, kinds []string, repo string) {
 			pathdiff++
 		}
 	}
+	// whole files through DecodeFileSR / File.Encode / File.EncodeSW
+	fc, fo := fileCases(hx.NewRng(seed+1234), repo, nfile, hv, 20000, func(b []byte) bool { return onlyModelled(b, modelled, reg) })
+	for i, c := range fc {
+		fmt.Fprintf(out, "F\tf%d\t%s\t%s\n", i, hx.Hex(c), bx.ObserveFile(c))
+		byOrigin[fo[i]]++
+		_, ocR, _ := bx.DecodeFileR(c)
+		if _, ocS, _ := bx.DecodeFileSR(c); ocR != ocS {
+			pathdiff++
+		}
+	}
 	var os_ []string
 	for k, v := range byOrigin {
 		os_ = append(os_, fmt.Sprintf("%s=%d", k, v))
 	}
 	sort.Strings(os_)
-	fmt.Fprintf(os.Stderr, "STATS cases=%d harvested_boxes=%d reader_path_outcome_differs=%d %s\n", len(cases), nh, pathdiff, strings.Join(os_, " "))
+	fmt.Fprintf(os.Stderr, "STATS cases=%d harvested_boxes=%d reader_path_outcome_differs=%d %s\n", len(cases)+len(fc), nh, pathdiff, strings.Join(os_, " "))
 }
 
 // ---------------------------------------------------------------- search
@@ -312,6 +382,12 @@ func search(seed uint64, n int, dc string, repo string, mode string, kinds strin
 			cases = append(cases, cs{m, "gen-mut"})
 		}
 	}
+	if mode == "c01" {
+		fc, _ := fileCases(hx.NewRng(seed+4321), repo, 60+n/8, hv, 2000000, nil)
+		for _, c := range fc {
+			cases = append(cases, cs{c, "file"})
+		}
+	}
 	w := startWorker(dc, mode)
 	evals, crashes, accepted := 0, 0, 0
 	for i, c := range cases {
@@ -325,6 +401,9 @@ func search(seed uint64, n int, dc string, repo string, mode string, kinds strin
 		tier := "m"
 		if c.o == "harvest" || c.o == "seed" || c.o == "gen" {
 			tier = "w"
+		}
+		if c.o == "file" {
+			tier = "F"
 		}
 		fmt.Fprintf(w.in, "%d\t%s\t%s\n", i, tier, hx.Hex(c.b))
 		done := make(chan bool, 1)
@@ -409,6 +488,24 @@ func worker(dcPath, mode string, kinds []string) {
 		w := hx.Hex(in)
 		if len(w) > 4000 {
 			w = w[:4000] + "..."
+		}
+		if p[1] == "F" { // a whole file
+			boxLevel := 0
+			for _, path := range []string{"sr", "reader"} {
+				before := evals
+				bx.LosslessFile(in, dc, path, &fails, &evals, &boxLevel)
+				acc += evals - before
+			}
+			seenF := map[string]bool{}
+			for _, f := range fails {
+				if k := f.Site + "/" + f.Class; !seenF[k] {
+					seenF[k] = true
+					fmt.Fprintf(out, "FAIL\t%s\t%s\t%s\t%s\tM0\t-\n", f.Site, f.Class, f.Witness, strings.ReplaceAll(f.Desc, "\n", " "))
+				}
+			}
+			fmt.Fprintf(out, "DONE\t%s\t%d\t%d\n", p[0], evals, acc)
+			out.Flush()
+			continue
 		}
 		for _, path := range []string{"sr", "reader"} {
 			dec := bx.DecodeSR
